@@ -85,7 +85,111 @@ def aug_decode(r, args):
             "source_sink_edges": sorted(set(pairs(r[4]))), "s": n, "t": n + 1}
 
 
+# ------------------------------------------------------------------------------------------ get_solution_paths
+def sp_case(rng, i):
+    """(n, edges of a DAG on 0..n-1, k, per layer the set of edges with value 1 (in terms of 's', 't' and node numbers), mode)"""
+    import itertools
+    n = rng.randint(1, 6)
+    pairs = [(u, v) for u in range(n) for v in range(u + 1, n)]
+    rng.shuffle(pairs)
+    edges = pairs[:rng.randint(0, min(8, len(pairs)))]
+    k = rng.randint(1, 3)
+    mode = rng.choice(["cache", "cache", "cache", "solver", "external"]) if i >= 4 else ["cache", "solver", "external", "cache"][i]
+    G = nx.DiGraph(); G.add_nodes_from(range(n)); G.add_edges_from(edges)
+    srcs = [v for v in G if G.in_degree(v) == 0]; snks = [v for v in G if G.out_degree(v) == 0]
+    def rand_path():
+        v = rng.choice(srcs); p = ["s", v]
+        while G.out_degree(v) > 0:
+            v = rng.choice(list(G.successors(v))); p.append(v)
+        return p + ["t"]
+    layers = []
+    for _ in range(k):
+        r = rng.random()
+        if r < 0.15: ones = []
+        else:
+            p = rand_path(); ones = list(zip(p, p[1:]))
+            if r > 0.6:                              # a second route switched on as well: the first successor with value 1 decides
+                q = rand_path(); ones += [e for e in zip(q, q[1:]) if e not in ones]
+        layers.append(ones)
+    ext = [[rng.randrange(n) for _ in range(rng.randint(0, 3))] for _ in range(rng.randint(0, 2))] if mode == "external" else None
+    return (n, edges, k, layers, mode, ext)
+
+
+def sp_objects(args):
+    import flowpaths as fp
+    n, edges, k, layers, mode, ext = args
+    name = {v: "v%d" % v for v in range(n)}
+    G = nx.DiGraph(); G.add_nodes_from(name[v] for v in range(n)); G.add_edges_from((name[u], name[v]) for u, v in edges)
+    st = fp.stDAG(G)
+    name["s"] = st.source; name["t"] = st.sink
+    num = {name[v]: v for v in range(n)}; num[st.source] = n; num[st.sink] = n + 1
+    sol = {}
+    for i, ones in enumerate(layers):
+        on = {(name[u], name[v]) for u, v in ones}
+        for (u, v) in st.edges(): sol[(str(u), str(v), i)] = 1 if (u, v) in on else 0
+    return st, name, num, sol
+
+
+def sp_real(args):
+    from flowpaths.abstractpathmodeldag import AbstractPathModelDAG as P
+    class Stub(P):
+        def get_solution(self): pass
+        def get_lowerbound_k(self): return 1
+        def is_valid_solution(self): return True
+        def get_objective_value(self): return None
+    class Solver:
+        def __init__(self, vals): self.vals = vals
+        def get_values(self, variables, binary_values=False): return dict(self.vals)
+    n, edges, k, layers, mode, ext = args
+    st, name, num, sol = sp_objects(args)
+    m = object.__new__(Stub); m.G = st; m.k = k
+    m.external_solution_paths = None if ext is None else [[name[v] for v in p] for p in ext]
+    m.edge_vars_sol = dict(sol) if mode != "solver" else {}
+    m.solver = Solver(sol if mode == "solver" else {}); m.edge_vars = {}
+    try:
+        got = m.get_solution_paths()
+    except Exception as e:
+        return {"exc": type(e).__name__}
+    return {"exc": None, "paths": [[num[v] for v in p] for p in got], "cache_filled": len(m.edge_vars_sol)}
+
+
+def sp_spec(args):
+    n, edges, k, layers, mode, ext = args
+    st, name, num, sol = sp_objects(args)
+    if ext is not None: return {"exc": None, "paths": [list(p) for p in ext], "cache_filled": len(sol)}
+    out = []
+    for i in range(k):
+        v = st.source; route = []
+        while True:
+            nxt = [w for w in st.successors(v) if sol[(str(v), str(w), i)] == 1]
+            if not nxt or nxt[0] == st.sink: break
+            v = nxt[0]; route.append(num[v])
+        out.append(route)
+    return {"exc": None, "paths": out, "cache_filled": len(sol)}
+
+
+def sp_call(args):
+    n, edges, k, layers, mode, ext = args
+    st, name, num, sol = sp_objects(args)
+    d = cL(["((%s, %s, (%d)%%Z), (%d)%%Z)" % (cN(num[u]), cN(num[v]), i, x) for (u, v, i), x in sol.items()])
+    G = "(mk_sgraph %s %s %s)" % (cN(n), cN(n + 1), cL(["(%s, %s)" % (cN(num[v]), cL([cN(num[w]) for w in st.successors(v)])) for v in st.nodes()]))
+    e = "None" if ext is None else "(Some %s)" % cL([cL([cN(v) for v in p]) for p in ext])
+    return ("(let r := fn %d %s %s %s (%d)%%Z %s in [enc_result (fun _ => []) (match fst r with Ret _ => RetNone | Exc e => Exc e | RetNone => Ret tt end)] ++ "
+            "(match fst r with Ret o => enc_paths o | _ => [] end) ++ [[Z.of_nat (length (snd r))]])"
+            % (n + 3, e, d if mode != "solver" else "[]", G, k, d if mode == "solver" else "[]"))
+
+
+def sp_decode(r, args):
+    if r[0][0] == 1:
+        return {"exc": {0: "ValueError", 1: "KeyError", 2: "TypeError", 3: "RuntimeError", 4: "IndexError", 5: "Exception", 7: "OutOfFuel (the loop does not terminate)"}.get(r[0][1], str(r[0]))}
+    if r[0][0] != 2: return {"exc": "returned None"}
+    if r[1] == [0]: return {"exc": "returned None"}
+    return {"exc": None, "paths": [list(p) for p in r[2:-1]], "cache_filled": r[-1][0]}
+
+
 TARGET = {
+    "solpaths": dict(case=sp_case, real=sp_real, spec=sp_spec, call=sp_call, decode=sp_decode, header=["From FP Require Import PyRt.", "From FPGen Require Import Gen_solpaths."],
+                     show=lambda a: {"nodes": a[0], "edges": a[1], "k": a[2], "value_1_edges_per_layer": a[3], "mode": a[4], "external_solution_paths": a[5]}),
     "augment": dict(case=aug_case, real=aug_real, spec=aug_spec, call=aug_call, decode=aug_decode, header=["From FP Require Import PyRt.", "From FPGen Require Import Gen_augment."],
                     show=lambda a: {"nodes": a[0], "edges": a[1], "additional_starts": a[2], "additional_ends": a[3]}),
 }
@@ -121,13 +225,13 @@ def one(ctx, name, build, compiled):
     T = TARGET[name]; spec = translate.TARGETS[name]
     rep = {"generated_model": name, "source": spec["file"] + " :: " + spec["func"]}
     model_ok, problems = gencheck.translate_and_prove(ctx, name, build, PROOFS[name], compiled)
-    n = ctx.budget(250, 2500)
+    n = ctx.budget(250, 2500) if name == "augment" else ctx.budget(90, 900)
     cases = [T["case"](ctx.rng("gen01-" + name, i), i) for i in range(n)]
     real = [T["real"](a) for a in cases]
     concrete = None
     for a, got in zip(cases, real):
         ctx.count("generated_model", "property_evaluations")
-        ctx.case(["generated", name, T["show"](a)], nontrivial=any(bool(x) for x in a[1:]))
+        ctx.case(["generated", name, T["show"](a)], nontrivial=any(bool(x) for x in a[1:4]))
         want = T["spec"](a)
         if got != want and concrete is None: concrete = (a, got, want)
     if model_ok:
